@@ -81,14 +81,20 @@ prop("C03_OLD",
 prop("C12",
      "Lease word: after renew(term, deadline) the lease is valid exactly for the same term (mod 2^16) and strictly before the "
      "deadline; revoke/invalidate make it invalid for every clock value; accepted configurations have lease + rtt/2 < "
-     "election_timeout_min without wrap-around.",
+     "election_timeout_min without wrap-around; on a real LeaderState a renewal anchored at send time S is valid exactly for "
+     "clock values below S + lease and only for the leader's term, and become_follower() revokes it for every clock value.",
      ["d-engine-core/src/raft_role/read_lease.rs", "d-engine-core/src/config/raft.rs"],
-     ["real clocks", "thread interleavings (the lease is one atomic word)"],
+     ["real clocks", "thread interleavings (the lease is one atomic word)",
+      "WHEN the leader renews (handle_append_result / handle_log_flushed: quorum of acknowledgements) and the revoke calls on the inbound-event step-down paths: role-level code that does not finish (DESIGN.md 2b) -- 'a voter majority acknowledged it within the lease window' is NOT decided"],
      [TRUST_COMPOSE, TRUST_TOOL],
      [H("c12_lease_word", "h_basic", functions=["ReadLease::renew", "ReadLease::revoke", "ReadLease::invalidate", "ReadLease::is_valid", "ReadLease::is_valid_for_leader"],
         bounds="term, now: full-width u64; deadline < 2^48 (renew panics above: documented limit)"),
       H("c34_election_and_read_consistency", "h_basic", functions=["ElectionConfig::validate", "ReadConsistencyConfig::validate"],
-        bounds="all numeric fields full-width u64/u32, all three default policies", stubs=[FMT])])
+        bounds="all numeric fields full-width u64/u32, all three default policies", stubs=[FMT]),
+      H("c12_leader_lease_window_and_stepdown", "h_more", loops=6, timeout=900,
+        functions=["LeaderState::update_lease_timestamp", "LeaderState::is_lease_valid", "LeaderState::become_follower (lease revoke)", "ReadLease::*", "LeaderState::from(&CandidateState)"],
+        bounds="leader term < 2^16, send timestamp and lease duration < 2^47 ms, clock value full width",
+        stubs=[LVL, CLOCK_FIXED, RND, FMT, "now_ms -> harness-controlled clock value", "std::io::_print -> no-op"])])
 
 prop("C26",
      "Quorum arithmetic: two majorities (is_majority, the predicate elections use) of one voter set of ANY size, even or odd, "
@@ -130,7 +136,9 @@ prop("C05",
      ["d-engine-core/src/election/election_handler.rs", "d-engine-core/src/raft_role/follower_state.rs", "d-engine-core/src/raft_role/leader_state.rs"],
      ["cross-node part (every later leader has the entry): composition of C01, election restriction and C09"],
      [TRUST_COMPOSE, TRUST_TOOL],
-     [h_vote_kernel, h_purge_f])
+     [h_vote_kernel, h_purge_f,
+      H("c05_leader_purge_guard", "h_more", loops=6, timeout=900, functions=["LeaderState::can_purge_logs"], bounds="commit index, log ids full width", stubs=[LVL, CLOCK_FIXED, RND, FMT]),
+      H("c05_learner_purge_guard", "h_more", loops=6, timeout=900, functions=["LearnerState::can_purge_logs"], bounds="commit index, log ids full width", stubs=[LVL, CLOCK_FIXED, RND, FMT])])
 
 
 prop("C03",
@@ -221,7 +229,7 @@ prop("C37",
         bounds="put with TTL Some(0), 1-byte key/value", stubs=[FMT])])
 
 prop("WIP", "work in progress batch", [], [], [], [
-    H("c09_commit_counts_only_current_voters", "h_more", timeout=1200, loops=17),
+    H("c07_heartbeat_commit_rule", "h_kernels", timeout=900, loops=6),
 ])
 prop("PROBE", "probes", [], [], [], [
     H("probe_default_cfg", "probe", timeout=600),
